@@ -154,11 +154,9 @@ fn process_z80r_block<H: Host>(emulator: &mut Emulator<H>, block_data: &[u8]) {
     // chFlags
     let flags = block_data[34] as u32;
     emulator.cpu.skip_interrupt = flags & ZXSTZF_EILAST != 0;
+    // PC of the halted CPU is stored pointing to the HALT opcode itself, which is
+    // exactly what halted `Z80` expects (it keeps re-executing HALT at PC)
     emulator.cpu.halted = flags & ZXSTZF_HALTED != 0;
-
-    if emulator.cpu.halted {
-        emulator.cpu.regs.inc_pc();
-    }
 
     // v1.5
     if flags & ZXSTZF_FSET != 0 {
